@@ -1,18 +1,22 @@
 ------------------------------ MODULE GroupCheck ------------------------------
-(* C13 judgement: the transactions the REAL tool reported vulnerable for each configuration and detector  *)
+(* C13 judgement.                                                                                          *)
+(*   c13.sound     a transaction the tool did NOT report for detector d, although it is eligible, while     *)
+(*                 GroupSem finds a concrete group consistent with the configuration that every member's   *)
+(*                 contract approves on the Avm machine with the target carrying d's dangerous value       *)
+(*   c13.verdict / c13.single-contract:                                                                    *)
+(* the transactions the REAL tool reported vulnerable for each configuration and detector                  *)
 (* against Group!Vulnerable evaluated on the tool's own leaf contexts; and, for a group of one            *)
 (* transaction, against the single-contract verdict (some path reported).                                  *)
-EXTENDS Group, Json, IOUtils
+EXTENDS Group, GroupSem, Json, IOUtils
 Data  == JsonDeserialize(IOEnv.OBS_FILE)
 Cases == Data.cases          \* [pid, txs, obs: [ok, exc, vuln: [detector -> <<tx numbers>>]]]
-Pool  == Data.pool           \* [isApp, leaves, single: [detector -> BOOLEAN (some path reported)]]
+Pool0 == Data.pool           \* [isApp, prog, leaves, single: [detector -> BOOLEAN (some path reported)]]
+Pool  == [c \in 1..Len(Pool0) |-> [isApp |-> Pool0[c].isApp, prog |-> Pool0[c].prog, st |-> Static(Pool0[c].prog),
+                                    leaves |-> Pool0[c].leaves, single |-> Pool0[c].single]]
 N     == Len(Cases)
 
 V(ok, clause, det, b, obs, exp) ==
     IF ok THEN << >> ELSE << [clause |-> clause, det |-> det, b |-> b, obs |-> ToJson(obs), exp |-> ToJson(exp)] >>
-Cat(seqs) == LET RECURSIVE CC(_)
-                 CC(i) == IF i = 0 THEN << >> ELSE CC(i - 1) \o seqs[i]
-             IN CC(Len(seqs))
 
 Violations(x) ==
     IF ~x.obs.ok THEN V(FALSE, "c13.crash", "", -1, x.obs.exc, "the configuration is analysed")
@@ -20,7 +24,14 @@ Violations(x) ==
             LET d == DetectorNames[k]
                 want == { j \in 1..Len(x.txs) : Vulnerable(x.txs, Pool, d, j) }
                 got == SeqToSet(x.obs.vuln[d])
+                missed == { j \in 1..Len(x.txs) : /\ j \notin got
+                                                    /\ Eligible(d, x.txs[j], Pool[x.txs[j].c].isApp)
+                                                    /\ Witness(x.txs, Pool, d, j) }
             IN V(got = want, "c13.verdict", d, -1, got, want)
+            \o (IF missed = {} THEN << >>
+                ELSE LET j == CHOOSE j \in missed : TRUE IN
+                     V(FALSE, "c13.sound", d, -1, [not_reported |-> j, approved_group |-> WitnessGroup(x.txs, Pool, d, j)],
+                       "reported vulnerable"))
             \o (IF Len(x.txs) = 1 /\ Eligible(d, x.txs[1], Pool[x.txs[1].c].isApp) /\ x.txs[1].abs = -1
                 THEN V((1 \in got) = Pool[x.txs[1].c].single[d], "c13.single-contract", d, -1, 1 \in got,
                        Pool[x.txs[1].c].single[d])
@@ -45,6 +56,16 @@ Report ==
                                              /\ Eligible(d, t, Pool[t.c].isApp)
                                              /\ ~SelfChecks(Pool[t.c].leaves, d, t.abs)
                                              /\ ~Vulnerable(x.txs, Pool, d, dj[2]) }),
+                                   \* soundness clause: (detector, transaction) pairs not reported although eligible, each searched
+                                   \* for an approved concrete group; and, on every fifth configuration, reported pairs for which
+                                   \* such a group exists (shows that the search does find groups)
+                                   ns |-> Cardinality({ dj \in (1..Len(DetectorNames)) \X (1..Len(x.txs)) :
+                                             /\ Eligible(DetectorNames[dj[1]], x.txs[dj[2]], Pool[x.txs[dj[2]].c].isApp)
+                                             /\ dj[2] \notin SeqToSet(x.obs.vuln[DetectorNames[dj[1]]]) }),
+                                   nw |-> IF x.pid % 5 # 0 THEN 0 ELSE
+                                          Cardinality({ dj \in (1..Len(DetectorNames)) \X (1..Len(x.txs)) :
+                                             /\ dj[2] \in SeqToSet(x.obs.vuln[DetectorNames[dj[1]]])
+                                             /\ Witness(x.txs, Pool, DetectorNames[dj[1]], dj[2]) }),
                                    \* ... of which through a relative offset while another member declares the same target
                                    n2 |-> Cardinality({ j \in 1..Len(x.txs) :
                                              Cardinality({ k \in 1..Len(x.txs) : \E r \in 1..Len(x.txs[k].rel) : x.txs[k].rel[r].to = j }) > 1 })]) \o " S@@")
